@@ -135,5 +135,16 @@ func Specs() map[string]*PropSpec {
 		Outside:     []string{"the type assertions inside the individual eth-route decorators (they need keeper stubs; planned with the eth ante harnesses)", "wider / deeper forests than the bound", "decorators after the blocking ones (they can only reject more)"},
 		Assumptions: []string{"message type URLs come from the generated RegisterType calls (extracted statically)", "codectypes.Any packing keeps the cached value (real SDK code executed)", "all inputs are concrete after the symbolic choice: this check is exhaustive path enumeration over the bounded forest space, stated as such"},
 	}
+	et := func(fn string) Inst { return Inst{Pkg: "x/evm/types", Fn: fn, Params: pm()} }
+	m["C18"] = &PropSpec{
+		ID: "C18", Pkgs: []string{"./x/evm/types"},
+		Quick: []Inst{et("VerifC18_RoundTrip"), et("VerifC18_Fees")}, Thorough: []Inst{et("VerifC18_RoundTrip"), et("VerifC18_Fees")},
+		Bounds: map[string]string{
+			"quick":    "legacy, access-list and dynamic-fee transactions: nonce, gas any uint64; value, gas price / tip / fee cap, r, s any integer in [0,2^256); v, chain id in [0,2^64); data of 0..2 symbolic bytes; access lists {nil, empty, 1 tuple x 1 key, 3 tuples x (2,1,0) keys}; contract creation and call; base fee in [0,2^200)",
+			"thorough": "same",
+		},
+		Outside:     []string{"BuildTx -> TxEncoder -> TxDecoder (protobuf Any packing and generated marshal code: typed blobs here)", "hash and sender recovery (RLP, keccak, secp256k1): functions of exactly the compared fields, not re-derived", "longer data / access lists than the bound"},
+		Assumptions: []string{"big.Int theory; (*big.Int).Bytes / SetBytes as an inverse pair with the empty string for zero", "codectypes.Any keeps the cached value; proto.Marshal is a typed blob", "(*Transaction).Hash stubbed (uninterpreted)"},
+	}
 	return m
 }
